@@ -529,3 +529,37 @@ PROPS["C07"] = {
                  "arithmetic) + pinned, reviewed scan of all panic sites + 3-mode in-process fuzzing under catch_unwind with range/"
                  "render/XML oracles + real-CLI exit-status runs",
 }
+
+PROPS["C03"] = {
+    "gen": ["gen_verif_env.py"],
+    "lean": ["QV.Props.C03"],
+    "streams": ["c03"],
+    "rule": "`c03-judge` (kind=pred): a generated constant expression (pure int/double/bool/string expressions biased to the "
+            "edges of the 64-bit range, shifts by 0..65, division by zero, astral-plane strings; plus the general generator in "
+            "constant-only mode for enumerators, flags, lists, qsTr) is bound to a VBase property and translated by the real "
+            "pipeline; the value read back from the real .ui with the independent XML reader is judged by Lean against "
+            "Spec.ConstSem.eval of the same expression (exact integer text, bit-exact double, UTF-16 order); an undefined value "
+            "must be rejected. `literal`/`spec-mv`: number literal spellings through the real parser vs Model.Literal / Spec.Ecma",
+    "trusted_base": [
+        "hand-written models of tir/ceval.rs (Model/Ceval.lean), qmlast/astutil.rs number parsing (Model/Literal.lean), tied by "
+        "the ir and c03 streams",
+        "IEEE-754 binary64 primitives: Lean's Float (C double) on the model/spec side, Rust f64 on the other; the decimal text of a "
+        "double is read back with Rust's correctly rounded str::parse::<f64> (as uic does with QString::toDouble)",
+        "Spec.ConstSem / Spec.Ecma: the documented semantics (docs/language.md, ECMA-262 NumericLiteral) written independently",
+    ],
+    "assumptions": [
+        "uic reads <number> as a decimal 64-bit integer and <double> with a correctly rounded conversion",
+        "the composition over whole expressions (walk → builder → evaluate_code → .ui) has no theorem: it is the c03 correspondence",
+        "over-rejection of a defined constant (i64::MIN % -1; QString+QString constants) is counted, not a violation of C03",
+    ],
+    "level_text": "proof for the folding and literal steps: fold_binary_sound / fold_unary_sound (every operator application on "
+                  "constants yields the denoted value of Spec.ConstSem, emits no code, and stays within 64 bits), "
+                  "undefined_rejected (division by zero, overflow, negative or too large shift are refused), "
+                  "shl_accepts_exactly_representable, literal_value (parse_number_str returns the ECMAScript MV for every integer "
+                  "literal spelling), int_text_roundtrip; F6/F8 witnesses for the pre-repair behaviour. End-to-end embedding is "
+                  "decided by the c03 stream against the specification (partial).",
+    "level_note": "trusted: Lean kernel; models tied by exact comparison (ir stream: IR and evaluated constants; c03: literals); IEEE "
+                  "primitives; F6, F7, F8 were genuine defects, repaired in /repo (2f8ccf9, 9b906e0, 568b1aa), witnesses in corpus/C03",
+    "technique": "Lean 4 proof (constant folder = denotational spec per operator, number-literal parser = ECMAScript MV) + "
+                 "specification-judged differential check of the real .ui",
+}
